@@ -179,3 +179,20 @@ PROPS["C02"] = dict(
     rule="cases = (route, wavefunction kind, t in {0, 0.13, -0.31, 0.5, 1.1}, e0 in {0, 0.7, -1.25}, api) evolutions + "
          "in-place, composition and inverse re-evolutions; non-trivial = t != 0; distinct by case index",
 )
+
+PROPS["C16"] = dict(
+    level="proof",
+    technique="Lean 4 theorems about the loop control flow (returns at the first order passing the test — for Chebyshev the "
+              "first two consecutive orders — and raises iff none does: never an unconverged return) + correspondence of "
+              "the outcome and of the distance to expm over graded (||Ht||, accuracy, expansion)",
+    text="Converge-or-raise is proved for the model of both loops; on the real library the outcome (state at order k or "
+         "RuntimeError) is compared with the model fed with the break tests on exact term norms, and a returned state's "
+         "distance to expm(-itH)psi (H's matrix exact from Spec) must be within accuracy + rounding whenever the break order "
+         "dominates ||Ht||; long-time norm drift of the exact routes is measured.",
+    note="Lean kernel; the analytic tail bound (remainder <= last term for ||Ht|| <= (k+1)/2) is used as the acceptance "
+         "criterion but not formalised; floating-point accumulation for long times is measured, not proved (partial).",
+    design_ref="DESIGN.md §5 C16",
+    rule="cases = (algorithm, Hamiltonian, t in 1e-3..20, accuracy 1e-3..1e-15, expansion 3..60) runs + long-time runs of the "
+         "exact routes; every case is distinct by index; borderline tests (|term - accuracy| <= 1e-6 accuracy) are skipped and "
+         "counted",
+)
